@@ -406,6 +406,8 @@ def _uniq_typed(seq):
 def _finite(v):
     if isinstance(v, float):
         return math.isfinite(v)
+    if isinstance(v, int) and not isinstance(v, bool):
+        return v.bit_length() < 13000          # stays below CPython's 4300-digit int <-> str limit
     if isinstance(v, list):
         return all(_finite(e) for e in v)
     if isinstance(v, dict):
